@@ -212,9 +212,13 @@ func (w *writer) str(s string) {
 		short, hasShort := shortEsc[r]
 		mode := w.st.esc
 		if mode == 3 {
-			mode = rapid.IntRange(0, 2).Draw(w.t, "esc")
+			mode = rapid.IntRange(0, 3).Draw(w.t, "esc")
 			if mode == 0 && !must && rapid.Bool().Draw(w.t, "escshort") && hasShort {
 				w.b.WriteString(short) // "\/"
+				continue
+			}
+			if mode == 3 { // any character may be spelled \uXXXX, also a plain 'a'
+				w.uesc(r)
 				continue
 			}
 		}
